@@ -401,10 +401,13 @@ def run_units(prop, unit_files, tier, jobs=None, harness_timeout=None, only=None
                             if k not in u.extra["arithmetic_wraps"]:
                                 u.extra["arithmetic_wraps"].append(k)
                         u.obligations -= len(wraps)
+                    # `unreachable!()` inside the harness's own support code (a mock method the unit declares outside its model)
+                    # is a limit of the harness, not of the code under contract: undecided, never a violation
                     unsupported = [x for x in r["fails"] if "not currently supported by Kani" in x[0]
-                                   or "is not supported by Kani" in x[0]]
+                                   or "is not supported by Kani" in x[0]
+                                   or ("entered unreachable code" in x[0] and "verif_kani_" in (x[1] or ""))]
                     if unsupported:
-                        undecided.append("harness %s reaches a construct Kani cannot model (%s) -- tool limit, not a violation" %
+                        undecided.append("harness %s reaches a construct Kani / the harness's mock cannot model (%s) -- tool limit, not a violation" %
                                          (h, unsupported[0][0][:120]))
                     real = [(dsc, loc) for dsc, loc in r["fails"]
                             if "unwinding assertion" not in dsc and (dsc, loc) not in wraps
